@@ -175,6 +175,7 @@ class VirtualLoop(asyncio.SelectorEventLoop):
         self._exec_pending = 0
         self._origin_us = CLOCK.us   # loop.time() == 0 at creation
         self._tfloat = 0.0           # exact float deadline of the timer the clock last jumped to
+        self._deadlock_check = True  # (scenarios that wait for real threads / sockets switch it off)
 
     # -- time -----------------------------------------------------------------
     def time(self) -> float:
@@ -209,6 +210,10 @@ class VirtualLoop(asyncio.SelectorEventLoop):
             h = heapq.heappop(sched)
             h._scheduled = False
             self._timer_cancelled_count -= 1
+        if not self._ready and not sched and self._exec_pending == 0 and not self._stopping and self._deadlock_check:
+            # nothing is ready, no timer is pending, no executor job is out: every task waits for something that can no longer
+            # happen — the scenario would block in select() for ever
+            raise BudgetExhausted(f"deadlock at virtual t={CLOCK.us}us: every task waits and nothing is scheduled")
         if not self._ready and sched and self._exec_pending == 0:
             when_us = self._origin_us + int(round(sched[0]._when * 1e6))
             if self.horizon_us is not None and when_us > self.horizon_us:
@@ -221,10 +226,39 @@ class VirtualLoop(asyncio.SelectorEventLoop):
         super()._run_once()
 
 
+_BUDGETS: dict | None = None
+
+
+def _site() -> str:
+    """the function that called vtime.run, as file.py:function"""
+    import sys as _sys
+    fr = _sys._getframe(2)
+    return f"{os.path.basename(fr.f_code.co_filename)}:{fr.f_code.co_name}"
+
+
+def _effective_budget(budget: int, site: str) -> int:
+    """The budgets written at the call sites are generous upper bounds.  `budgets.json` (tools/mkbudgets.py) records the largest
+    number of callbacks each site needed on the unchanged tree over the thorough tier; a run may use 50 times that (at least
+    100 000) before it counts as not finishing — a livelock on changed code is then reported within minutes, not hours."""
+    global _BUDGETS
+    if _BUDGETS is None:
+        try:
+            import json as _json
+            _BUDGETS = _json.loads((__import__("pathlib").Path(__file__).parent / "budgets.json").read_text())
+        except Exception:  # noqa: BLE001
+            _BUDGETS = {}
+    used = _BUDGETS.get(site)
+    if used is None:
+        return budget
+    return min(budget, max(100_000, 50 * int(used)))
+
+
 def run(coro_fn, *, budget: int = 2_000_000, horizon_us: int | None = None, on_callback=None,
         start_us: int = 0):
     """Run `coro_fn(loop)` to completion on a fresh VirtualLoop; returns its result."""
     CLOCK.reset(start_us)
+    if not os.environ.get("VERIF_BUDGET_LOG"):
+        budget = _effective_budget(budget, _site())
     loop = VirtualLoop(budget=budget, horizon_us=horizon_us)
     loop.on_callback = on_callback
     asyncio.set_event_loop(loop)
@@ -244,3 +278,7 @@ def run(coro_fn, *, budget: int = 2_000_000, horizon_us: int | None = None, on_c
             pass
         asyncio.set_event_loop(None)
         loop.close()
+        if os.environ.get("VERIF_BUDGET_LOG"):        # development aid: callbacks used vs budget, per call site
+            import sys as _sys
+            with open(os.environ["VERIF_BUDGET_LOG"], "a") as _f:
+                _f.write(f"{_site()} {budget} {loop.cb_index}\n")
